@@ -1102,8 +1102,10 @@ class PathResult:
         self.unsupported = unsupported
 
 
-def explore(run, max_paths=64, timeout_ms=2000, **interp_kw):
-    """run(interp) -> value, executed once per feasible path.  Returns list of PathResult."""
+def explore(run, max_paths=64, timeout_ms=2000, holders=(), **interp_kw):
+    """run(interp) -> value, executed once per feasible path.  Returns list of PathResult.
+    `holders`: dicts the contract's run() fills as a side effect; their content at the end of EACH path is kept with that path
+    (PathResult.holder_snapshots), so that a postcondition never sees the values of another path."""
     results = []
     stack = [[]]
     while stack:
@@ -1124,7 +1126,10 @@ def explore(run, max_paths=64, timeout_ms=2000, **interp_kw):
         except PathInfeasible:
             pr = None
         if pr is not None:
+            pr.holder_snapshots = [dict(h) for h in holders]
             results.append(pr)
+        for h in holders:
+            pass
         for k in range(len(dec), len(ctx.taken)):
             if ctx.taken[k].forked:
                 stack.append([t.value for t in ctx.taken[:k]] + [False])
